@@ -14,8 +14,9 @@ import (
 // the host/script boundary in either direction.
 //
 // T: nil int(go int) int64 float string bool rune byte bytes array map error
-//    time obj(opaque tengo object, S = its TypeName+String) and the unsupported
-//    Go kinds int32 uint float32 struct (only handed *to* tengo, by C15).
+//
+//	time obj(opaque tengo object, S = its TypeName+String) and the unsupported
+//	Go kinds int32 uint float32 struct (only handed *to* tengo, by C15).
 type Value struct {
 	T string           `json:"t"`
 	I int64            `json:"i,omitempty"`
@@ -27,15 +28,15 @@ type Value struct {
 	M map[string]Value `json:"m,omitempty"`
 }
 
-func Nil() Value             { return Value{T: "nil"} }
-func Int(i int64) Value      { return Value{T: "int64", I: i} }
-func GoInt(i int64) Value    { return Value{T: "int", I: i} }
-func Str(s string) Value     { return Value{T: "string", S: s} }
-func Float(f float64) Value  { return Value{T: "float", F: f} }
-func Bool(b bool) Value      { return Value{T: "bool", B: b} }
-func Rune(r rune) Value      { return Value{T: "rune", I: int64(r)} }
-func Bytes(b []byte) Value   { return Value{T: "bytes", Y: b} }
-func Arr(a ...Value) Value   { return Value{T: "array", A: a} }
+func Nil() Value            { return Value{T: "nil"} }
+func Int(i int64) Value     { return Value{T: "int64", I: i} }
+func GoInt(i int64) Value   { return Value{T: "int", I: i} }
+func Str(s string) Value    { return Value{T: "string", S: s} }
+func Float(f float64) Value { return Value{T: "float", F: f} }
+func Bool(b bool) Value     { return Value{T: "bool", B: b} }
+func Rune(r rune) Value     { return Value{T: "rune", I: int64(r)} }
+func Bytes(b []byte) Value  { return Value{T: "bytes", Y: b} }
+func Arr(a ...Value) Value  { return Value{T: "array", A: a} }
 func Map(m map[string]Value) Value {
 	if m == nil {
 		m = map[string]Value{}
@@ -75,6 +76,7 @@ type Config struct {
 	TickNs       int64 `json:"tickNs"`                 // simulated ns per VM instruction (0 = clock never moves by itself)
 	MaxDecisions int   `json:"maxDecisions,omitempty"` // cap; 0 = default
 	Race         bool  `json:"race,omitempty"`         // wants the race build (pool drain at switches, report reader)
+	PoolShare    bool  `json:"poolShare,omitempty"`    // pooled objects may travel between simulated threads: no drains, one P, no GC, yields inside host String methods
 }
 
 // Module is a module made available to scripts through the simulator's getter.
@@ -137,8 +139,8 @@ const (
 // CtxSpec describes a context handed to a context-aware call and when the
 // simulator cancels it.
 type CtxSpec struct {
-	Kind string `json:"kind"` // background cancel timeout deadlinePast preCancelled childOfCancelled
-	DNs  int64  `json:"dNs,omitempty"`  // timeout length (simulated ns), may be <= 0
+	Kind string `json:"kind"`          // background cancel timeout deadlinePast preCancelled childOfCancelled
+	DNs  int64  `json:"dNs,omitempty"` // timeout length (simulated ns), may be <= 0
 	// for kind=cancel: the instant. Site is a site name (see sim.SiteName) reached
 	// by the caller or the VM thread of the run using this context; Step>=0 means
 	// "when the VM of that run is about to execute its Step-th instruction";
